@@ -2,6 +2,9 @@
 package c01
 
 import (
+	"context"
+	"errors"
+
 	ae "github.com/godaddy/asherah/go/appencryption"
 
 	"verifh/h/env"
@@ -185,4 +188,94 @@ func Rotations() {
 		}
 	}
 	vx.Reach("C01.rotations_end")
+}
+
+// kvStore is the caller's data persistence store behind Session.Store / Session.Load.
+type kvStore struct {
+	rows     map[int]ae.DataRowRecord
+	next     int
+	failNext bool
+}
+
+var errKV = errors.New("kv store unavailable")
+
+func (k *kvStore) Store(_ context.Context, d ae.DataRowRecord) (interface{}, error) {
+	if k.failNext {
+		k.failNext = false
+		return nil, errKV
+	}
+	k.next++
+	k.rows[k.next] = d
+	return k.next, nil
+}
+
+func (k *kvStore) Load(_ context.Context, key interface{}) (*ae.DataRowRecord, error) {
+	if k.failNext {
+		k.failNext = false
+		return nil, errKV
+	}
+	d, ok := k.rows[key.(int)]
+	if !ok {
+		return nil, errors.New("no such row")
+	}
+	return &d, nil
+}
+
+// StoreLoad: the Store / Load form of the API. What Store persisted through the caller's Storer loads back to the
+// original payload - in the same session, in another session and in another process, at any later instant - and a
+// failing Storer / Loader surfaces as an error, never as a payload.
+func StoreLoad() {
+	e := env.New()
+	pol := env.Policies[vx.Choice("policy", vx.Param("policies"))]
+	f := e.Factory(e.Policy(pol, vx.Choice("cache", vx.Param("caches"))))
+	sess, err := f.GetSession("p0")
+	vx.Assert("C01.getsession", err == nil)
+	kv := &kvStore{rows: map[int]ae.DataRowRecord{}}
+	tick := func() {
+		vx.ClockFreeze(false)
+		vx.Now()
+		vx.ClockFreeze(true)
+	}
+	payload := vx.BytesUpTo("payload", vx.Param("P"))
+	keep := append([]byte(nil), payload...)
+	tick()
+	key, err := sess.Store(env.Ctx, payload, kv)
+	vx.Assert("C01.store_ok", err == nil && key != nil)
+	if err != nil {
+		vx.Stop()
+	}
+	vx.Assert("C01.store_payload_unmodified", vx.BytesEq(payload, keep))
+	vx.Assert("C01.store_persisted_one_row", len(kv.rows) == 1)
+	// a failing Storer: error, nothing persisted
+	kv.failNext = true
+	k2, err := sess.Store(env.Ctx, []byte{9}, kv)
+	vx.Assert("C01.storer_failure_is_an_error", err != nil && k2 == nil && len(kv.rows) == 1)
+	// optional out-of-band revocation of the keys the row was written under
+	switch vx.Choice("revoke", 3) {
+	case 1:
+		e.Store.Latest(env.IKID("p0")).Revoked = true
+	case 2:
+		e.Store.Latest(env.SKID()).Revoked = true
+	}
+	var reader *ae.Session
+	switch vx.Choice("reader", 3) {
+	case 0:
+		reader = sess
+	case 1:
+		reader, _ = f.GetSession("p0")
+	default:
+		f2 := e.Factory(e.Policy(pol, vx.Choice("cache2", vx.Param("caches"))))
+		reader, _ = f2.GetSession("p0")
+	}
+	tick()
+	out, err := reader.Load(env.Ctx, key, kv)
+	vx.Assert("C01.load_ok", err == nil)
+	vx.Assert("C01.load_roundtrip", vx.BytesEq(out, keep))
+	// a failing Loader and an unknown key: error, no payload
+	kv.failNext = true
+	out, err = reader.Load(env.Ctx, key, kv)
+	vx.Assert("C01.loader_failure_is_an_error", err != nil && out == nil)
+	out, err = reader.Load(env.Ctx, 12345, kv)
+	vx.Assert("C01.unknown_key_is_an_error", err != nil && out == nil)
+	vx.Reach("C01.storeload_end")
 }
